@@ -524,6 +524,8 @@ def _dispatcher_class():
                     self.queue.remove(entry)
                     sim.attempts[entry["att"]]["outcome"] = "cancel:" + entry["outcome"]
                     self._arm()
+                elif sim.attempts[entry["att"]]["outcome"] == "ok":
+                    raise      # already answered ok: the message is delivered, only the waiting task dies
                 else:
                     sim.attempts[entry["att"]]["outcome"] += ":cancelled-after"
                     if i in sim.failed_open:
@@ -619,21 +621,21 @@ def _runner_class():
                 sim.log("Ub" if task.get_name().endswith("buffer_messages") else "Us")
                 self.__dict__["_stask"] = _TaskProxy(sim, task)
 
-        async def _post_async(self, message):
+        async def _post_async(self, message, *args, **kw):
             sim = self._sim
             cur = asyncio.current_task()
             prev = sim.handler_of.get(cur)
             sim.handler_of[cur] = sim.mid(message)
             try:
-                return await self._post_logged(message)
+                return await self._post_logged(message, *args, **kw)
             finally:
                 if prev is None:
                     sim.handler_of.pop(cur, None)
                 else:
                     sim.handler_of[cur] = prev
 
-        async def _post_logged(self, message):
-            r = await super()._post_async(message)
+        async def _post_logged(self, message, *args, **kw):
+            r = await super()._post_async(message, *args, **kw)
             if isinstance(r, M.ErrorMessage) and r.message is not None and r.message.endswith("invalid state"):
                 self._sim.log(f"X{self._sim.mid(message)}")
                 self._sim.rejected_ids.append(self._sim.mid(message))
